@@ -238,6 +238,25 @@ impl<'tcx> Cx<'tcx> {
         // generic args as type strings (first few), e.g. the Self type of a trait method
         let targs: Vec<J> = args.iter().filter_map(|a| a.as_type()).map(|t| J::Obj(self.ty_info(t))).collect();
         o.push(("targs", J::Arr(targs)));
+        // tuple-variant / tuple-struct constructors used as functions (`.map(Some)`): which aggregate they build
+        if let DefKind::Ctor(of, _) = self.tcx.def_kind(d) {
+            let (adt_did, vi) = match of {
+                rustc_hir::def::CtorOf::Variant => {
+                    let adt_did = self.tcx.parent(self.tcx.parent(d));
+                    let adt = self.tcx.adt_def(adt_did);
+                    (adt_did, adt.variant_index_with_ctor_id(d).as_usize())
+                }
+                rustc_hir::def::CtorOf::Struct => (self.tcx.parent(d), 0usize),
+            };
+            let adt = self.tcx.adt_def(adt_did);
+            let v = adt.variant(rustc_abi::VariantIdx::from_usize(vi));
+            o.push(("ctor", J::Obj(vec![
+                ("adt", s(self.path(adt_did))),
+                ("vi", J::Num(vi as i128)),
+                ("variant", s(v.name.to_string())),
+                ("fields", J::Arr(v.fields.iter().map(|f| s(f.name.to_string())).collect())),
+            ])));
+        }
         o
     }
 
